@@ -44,10 +44,10 @@ ASAN_NOLEAK = "halt_on_error=1:abort_on_error=0:detect_leaks=0:exitcode=99:alloc
 PLANS = {
     "C01": [hist("big", 1, 40000, 300000), hist("realloc", 1, 480000, 3000000), hist("bound", 10, 480000, 7500000), hist("evict", 2, 480000, 4500000), hist("extreme", 2, 320000, 3000000),
             hist("extreme", 2, 320000, 3000000, mode="wrap"), job("realheap", "native", 2, [], budget={"quick": 300000, "thorough": 5000000})],
-    "C02": [hist("big", 1, 40000, 300000), hist("realloc", 1, 480000, 3000000), hist("bound", 8, 480000, 7500000), hist("mutate", 3, 480000, 4500000), hist("ledger", 1, 480000, 3000000), hist("extreme", 2, 320000, 3000000),
+    "C02": [job("typevar", "native", 1, ["--layouts", "400"]), hist("big", 1, 40000, 300000), hist("realloc", 1, 480000, 3000000), hist("bound", 8, 480000, 7500000), hist("mutate", 3, 480000, 4500000), hist("ledger", 1, 480000, 3000000), hist("extreme", 2, 320000, 3000000),
             hist("extreme", 2, 320000, 3000000, mode="wrap"), job("realheap", "native", 2, [], budget={"quick": 400000, "thorough": 6000000})],
     "C03": [hist("big", 1, 40000, 300000), hist("realloc", 1, 480000, 3000000), hist("evict", 14, 480000, 9000000), hist("mixed", 2, 480000, 4500000)],
-    "C04": [hist("big", 1, 40000, 300000), hist("map", 12, 480000, 9000000), hist("realloc", 2, 480000, 4500000), hist("mixed", 2, 480000, 4500000)],
+    "C04": [job("bigcap", "native", 1, [], budget={"quick": 2000, "thorough": 100000}, budget_arg="max-n"), hist("big", 1, 40000, 300000), hist("map", 12, 480000, 9000000), hist("realloc", 2, 480000, 4500000), hist("mixed", 2, 480000, 4500000)],
     "C05": [hist("big", 1, 40000, 300000), job("interleave", "native", 4, [], budget={"quick": 300000, "thorough": 5000000}), hist("order", 12, 480000, 9000000), hist("realloc", 2, 480000, 4500000), hist("mixed", 2, 480000, 4500000)],
     "C06": [job("typevar", "native", 2, [], budget={"quick": 1500000, "thorough": 30000000}), job("typevar", "asan", 1, [], budget={"quick": 300000, "thorough": 5000000}, reports_to=MEM),
             job("typevar", "miri", 2, [], budget={"quick": 60, "thorough": 1500}, reports_to=MEM), hist("big", 1, 40000, 300000), hist("realloc", 1, 480000, 3000000), hist("ledger", 10, 480000, 6000000), hist("mixed", 2, 480000, 3000000),
@@ -87,7 +87,7 @@ PLANS = {
             job("memsize_total", "debug0", 18, ["--case", "{shard}", "--thread", "small"], budget={"quick": 1000000, "thorough": 4000000}, budget_arg="n", verdict="exit", prop="C08", bin="lruverif_tot"),
             job("memsize_total", "native", 18, ["--case", "{shard}", "--thread", "small"], budget={"quick": 1000000, "thorough": 10000000}, budget_arg="n", verdict="exit", prop="C08", bin="lruverif_tot")],
     "C09": [msjob("memsize", "debug0", 12, [], budget={"quick": 5000, "thorough": 200000}, budget_arg="rounds")],
-    "C10": [hist("big", 1, 40000, 300000), hist("realloc", 1, 480000, 3000000), hist("insert", 14, 480000, 9000000), hist("mixed", 2, 480000, 4500000)],
+    "C10": [job("typevar", "native", 1, ["--layouts", "400"]), hist("big", 1, 40000, 300000), hist("realloc", 1, 480000, 3000000), hist("insert", 14, 480000, 9000000), hist("mixed", 2, 480000, 4500000)],
     "C11": [hist("big", 1, 40000, 300000), hist("realloc", 1, 480000, 3000000), hist("mutate", 14, 480000, 9000000), hist("mixed", 2, 480000, 4500000)],
 }
 
@@ -97,7 +97,7 @@ LEVELS.update({"C13": "fault_enumeration", "C16": "fault_enumeration", "C17": "f
 # Non-vacuity floors: if the monitors did not see the situations the property is about, the run is inconclusive.
 FLOORS = {
     "C01": {"evaluations": {"quick": 300000, "thorough": 10000000}, "distinct": 300, "exact_fit": 500, "one_over": 200, "grow_the_lru": 50, "limit_cur_minus_1": 50, "limit_zero": 50, "limit_max": 50},
-    "C02": {"evaluations": {"quick": 300000, "thorough": 10000000}, "distinct": 100, "replacements": 1000, "reallocations": 1000, "sum:c11_class0": 200, "sum:c11_class2": 200, "sum:c11_class3": 100, "sum:c11_class4": 100, "c02_realheap_events": 500000},
+    "C02": {"evaluations": {"quick": 300000, "thorough": 10000000}, "distinct": 100, "replacements": 1000, "reallocations": 1000, "sum:c11_class0": 200, "sum:c11_class2": 200, "sum:c11_class3": 100, "sum:c11_class4": 100, "c02_realheap_events": 500000, "c02_layout_events": 20000},
     "C03": {"evaluations": {"quick": 300000, "thorough": 10000000}, "distinct": 200, "multi_evictions": 50, "replace_then_evict": 20, "grow_the_lru": 20, "exact_fit_evicts_nothing": 20},
     "C04": {"evaluations": {"quick": 300000, "thorough": 10000000}, "distinct": 300, "each:lookup_": 50, "reallocations": 1000, "max:const_hasher_max_len": 20},
     "C05": {"evaluations": {"quick": 300000, "thorough": 10000000}, "distinct": 100, "each:promote_": 5, "order_checked_after_realloc_len10": 100, "debug_compared": 100},
@@ -148,5 +148,5 @@ ASSUMPTIONS = {
           "instrumented key/value types (TKey/TVal with declared heap sizes, unique ids) stand for arbitrary K, V",
           "the verif-hooks feature only adds a read-only walker; the library code under test is otherwise the working tree of /repo"],
     "C01": ["every single entry size is representable in usize (sums are not restricted)"],
-    "C02": ["declared sizes change only inside mutate (no interior mutability)"],
+    "C02": [job("typevar", "native", 1, ["--layouts", "400"]), "declared sizes change only inside mutate (no interior mutability)"],
 }
